@@ -48,6 +48,7 @@ def direct_work(item):
     from mc.checks import c07
     from mc.fd import build
     from mc.refconstraint import from_snapshot, holds, merge_whole, text
+    from mc.refconstraint import readings as all_readings
     which, idx = item
     f = c07.formulas(which, "quick")[idx]
     ctext = text(f)
@@ -57,7 +58,7 @@ def direct_work(item):
     except Exception:
         return out
     whole = merge_whole(f)
-    readings = [f] + ([whole] if whole is not None and whole is not f else [])
+    readings = all_readings(f)
     ev = Evaluator(spec.grammar, spec.constraints, 1.0, 5, 1.0)
     for snapshot in c07.trees_for(which, "quick"):
         tree = from_snapshot(snapshot)
